@@ -278,6 +278,10 @@ func (t Type) Mod(b Type) (Type, error) {
 		aVal := t.i()
 		bVal := b.i()
 
+		if bVal == 0 {
+			return Nil, ErrZeroDiv
+		}
+
 		return NewInt(aVal % bVal), nil
 
 	default:
